@@ -489,8 +489,10 @@ mod unstable {
                                 if equality_comparison(comp) {
                                     for ovar in outer_vars.iter() {
                                         for ivar in inner_vars.iter() {
+                                            // (an inner block that binds ovar again equates its own variable, not the outer one)
                                             if ovar.sort == Sort::General
                                                 && ivar.sort == Sort::Integer
+                                                && !inner_vars.contains(ovar)
                                             {
                                                 let replacement_result =
                                                     replacement_helper(ivar, ovar, comp, &formula);
@@ -550,6 +552,7 @@ mod unstable {
                                     for ivar in inner_vars.iter() {
                                         if ovar.sort == Sort::General
                                             && ivar.sort == Sort::Integer
+                                            && !inner_vars.contains(ovar)
                                             && !rhs.free_variables().contains(ovar)
                                         {
                                             let replacement_result =
